@@ -335,33 +335,66 @@ def run(tier, res, is_known):
         return
     hists = sorted(states.values())
     product(fault_checks, hists, res, is_known, label='fault injection', sample_every=211)
-    # constructing a broker in an unsupported currency is refused (stateless)
+    # constructing a broker in an unsupported currency is refused (stateless); other spellings of a supported code
+    # ('usd', 'Gbp') are either refused or accepted CONSISTENTLY - never half of each
+    for code in CTOR_CODES:
+        for f in ctor_check(code):
+            res.add_violation(dict(f, case={'harness': 'ctor', 'code': code}))
+
+
+CTOR_CODES = ['XYZ', 'xyz', '', 'usd', 'Gbp', 'eur', 'USD ', 'UsD']
+
+
+def ctor_check(code):
     from qstrader.broker.simulated_broker import SimulatedBroker
     from qstrader.exchange.simulated_exchange import SimulatedExchange
+    sig = 'SimulatedBroker(base_currency=%r)' % code
+    supported_spelling = code.strip().upper() in ('USD', 'GBP', 'EUR') and code not in ('USD', 'GBP', 'EUR')
     try:
-        SimulatedBroker(bm.INSTANTS[0], SimulatedExchange(bm.INSTANTS[0]), bm.StubDataHandler(), base_currency='XYZ')
-        res.add_violation({'clause': 'C15.silent_acceptance', 'signature': 'SimulatedBroker(base_currency=XYZ)',
-                           'case': {'harness': 'ctor'}, 'detail': 'unsupported currency accepted'})
+        b = SimulatedBroker(bm.INSTANTS[0], SimulatedExchange(bm.INSTANTS[0]), bm.StubDataHandler(), base_currency=code,
+                            initial_funds=1000.0)
+    except ValueError:
+        b = None
+    except Exception as e:  # noqa
+        return [{'clause': 'C15.error_type', 'signature': sig, 'detail': repr(e)}]
+    fails = []
+    if b is not None:
+        if not supported_spelling:
+            return [{'clause': 'C15.silent_acceptance', 'signature': sig, 'detail': 'unsupported currency accepted'}]
+        # accepted: then it must BE an account in that currency - the funds are where the getters look for them
+        try:
+            b.subscribe_funds_to_account(5.0)
+            own = b.get_account_cash_balance(b.base_currency)
+            table = dict(b.get_account_cash_balance())
+            given = b.get_account_cash_balance(code)
+            ok = own == 1005.0 and given == 1005.0 and sum(table.values()) == 1005.0
+            if not ok:
+                fails.append({'clause': 'C15.silent_acceptance', 'signature': sig,
+                              'detail': {'accepted_but': 'the funds are not where the getters look', 'balance(base_currency)': own,
+                                         'balance(code as given)': given, 'table': {str(k): v for k, v in table.items()}}})
+        except Exception as e:  # noqa
+            fails.append({'clause': 'C15.silent_acceptance', 'signature': sig,
+                          'detail': {'accepted_but': 'the account does not work', 'error': repr(e)}})
+    # the getter on an ordinary USD account: refuse the spelling or answer as for the code it spells
+    u = SimulatedBroker(bm.INSTANTS[0], SimulatedExchange(bm.INSTANTS[0]), bm.StubDataHandler(), initial_funds=1000.0)
+    try:
+        v = u.get_account_cash_balance(code)
+        want = u.get_account_cash_balance(code.strip().upper()) if supported_spelling else None
+        if not supported_spelling or v != want:
+            fails.append({'clause': 'C15.silent_acceptance', 'signature': 'get_account_cash_balance(%r)' % code,
+                          'detail': {'returned': repr(v), 'balance of the code it spells': want}})
     except ValueError:
         pass
     except Exception as e:  # noqa
-        res.add_violation({'clause': 'C15.error_type', 'signature': 'SimulatedBroker(base_currency=XYZ)',
-                           'case': {'harness': 'ctor'}, 'detail': repr(e)})
+        fails.append({'clause': 'C15.error_type', 'signature': 'get_account_cash_balance(%r)' % code, 'detail': repr(e)})
+    return fails
 
 
 def replay(case):
     if case['harness'] == 'broker':
         return bm.replay_broker(case, 'C15.')
     if case['harness'] == 'ctor':
-        from qstrader.broker.simulated_broker import SimulatedBroker
-        from qstrader.exchange.simulated_exchange import SimulatedExchange
-        try:
-            SimulatedBroker(bm.INSTANTS[0], SimulatedExchange(bm.INSTANTS[0]), bm.StubDataHandler(), base_currency='XYZ')
-            return [{'clause': 'C15.silent_acceptance', 'signature': 'SimulatedBroker(base_currency=XYZ)'}]
-        except ValueError:
-            return []
-        except Exception as e:  # noqa
-            return [{'clause': 'C15.error_type', 'signature': 'SimulatedBroker(base_currency=XYZ)', 'detail': repr(e)}]
+        return ctor_check(case.get('code', 'XYZ'))
     hist = tuple(tuple(e) for e in case['history'])
     m, _ = bm.build(FEE, hist)
     menu = faults(m)
